@@ -53,7 +53,7 @@ let () =
        | ["W"; sp; e] -> print_endline (out_string (rewrite_span (span_of sp) (explode (unhex e))))
        | ["I"; e] -> print_endline (show_oz (parse_int_raw (explode (unhex e))) ^ " " ^ show_oz (parse_pyint (explode (unhex e))))
        | ["M"; n; e] ->
-           (match index_sem (nat_of_int (int_of_string n)) (explode (unhex e)) with
+           (match index_sem_any (nat_of_int (int_of_string n)) (explode (unhex e)) with
             | None -> print_endline "N"
             | Some l -> print_endline ("P " ^ String.concat "," (List.map (fun p -> string_of_int (int_of_nat p)) l)))
        | ["N"; tbl; outer; vars; locals; bi; name] ->
